@@ -15,12 +15,12 @@ CHECKS = {
          "DESIGN.md 3/C01"),
  "C02": ("model_checking",
          "explicit-state enumeration of canonical trees; lock-step differential execution of every (state, op) on a real disk filespace (materialised in a scratch dir with canaries outside the root) and a real memfs, both also compared with the tree reference model",
-         "From each of the 361/841 canonical trees every op of the alphabet is applied to both real backends (root and child views). Where the stated preconditions hold (model class MUST-OK) results, returned data/listings (as sets) and the resulting trees must be equal on disk, in memory and in the model; otherwise both must fail cleanly: no panic, nothing outside the addressed paths changes, the host directory outside the root (canary file/dir) is untouched. Histories of <=3 operations on retained root/child-view objects run in lock-step on both backends. 94 programs of 2-3 concurrent operations (creations, listings, reads, removal of a sibling entry) on ONE disk filespace are explored under every schedule with <=2/3 preemptions, every host file system call (package functions and methods of os / io/fs values) of the disk packages being a scheduling point: all operations must succeed and the final tree must be a sequential outcome of the model.",
+         "From each of the 361/841 canonical trees every op of the alphabet is applied to both real backends (root and child views). Where the stated preconditions hold (model class MUST-OK) results, returned data/listings (as sets) and the resulting trees must be equal on disk, in memory and in the model; otherwise both must fail cleanly: no panic, nothing outside the addressed paths changes, the host directory outside the root (canary file/dir) is untouched. Histories of <=3 operations on retained root/child-view objects run in lock-step on both backends; every ReadFile/ReadDir result on disk is held across every later operation (reads included) and re-inspected. 94 programs of 2-3 concurrent operations (creations, listings, reads, removal of a sibling entry) on ONE disk filespace are explored under every schedule with <=2/3 preemptions, every host file system call (package functions and methods of os / io/fs values) of the disk packages being a scheduling point: all operations must succeed and the final tree must be a sequential outcome of the model.",
          "Disk states are materialised with plain os calls; no symlinks/permissions; removal of the real root and directory-into-itself copies are excluded (unbounded on disk); the concurrent programs only contain operations whose preconditions hold in every order (the disk backend is not linearizable against removals of addressed nodes, and the statement quantifies over histories).",
          "DESIGN.md 3/C02"),
  "C03": ("exploration",
-         "bounded exhaustive enumeration of path strings x 16 operations x 31 view kinds x preludes on the real code with canaries outside every view root (no sampling)",
-         "Every path string of <=3 (quick) / <=4 (thorough) segments over {name,'.','..',''} with/without leading '/' is passed to every operation (both arguments of the copies, and as Filespace() argument followed by write/list/remove) of every view kind: memory child, child-of-child, disk root/child/grandchild, encrypted over either, read-only mask and its children, sub-path helper and nesting, cache children and caches over child views (committed before the comparison), views rooted in an empty directory inside an otherwise empty directory, and view roots named like a sibling plus a leading dot. Oracle: the snapshot of everything outside the view root (store tree, host directory, cache-visible tree) is byte-identical, and no returned content/listing/stat/existence answer belongs to a node outside the root.",
+         "bounded exhaustive enumeration of path strings x 16 operations x 33 view kinds x preludes on the real code with canaries outside every view root (no sampling)",
+         "Every path string of <=3 (quick) / <=4 (thorough) segments over {name,'.','..',''} with/without leading '/' is passed to every operation (both arguments of the copies, and as Filespace() argument followed by write/list/remove) of every view kind: memory child, child-of-child, disk root/child/grandchild, encrypted over either, read-only mask and its children, sub-path helper and nesting, cache children and caches over child views (committed before the comparison), views rooted in an empty directory inside an otherwise empty directory, view roots named like a sibling plus a leading dot, and disk views created from a relative root before the process changes its working directory. Oracle: the snapshot of everything outside the view root (store tree, host directory, cache-visible tree) is byte-identical, and no returned content/listing/stat/existence answer belongs to a node outside the root.",
          "Segment bound as stated (the 'randomly beyond' part is not claimed); every case also after an 'outside sweep' (all reads of all store nodes through the parent object and a sibling view) and, for climbing paths, after write/list/mkdir+remove preludes through the same view object; three view kinds over a store written through the encryption; one store shape with same-named nodes inside and outside; the view's own root node counts as inside.",
          "DESIGN.md 3/C03"),
  "C04": ("fault_enumeration",
@@ -30,7 +30,7 @@ CHECKS = {
          "DESIGN.md 3/C04"),
  "C05": ("fault_enumeration",
          "bounded exhaustive enumeration of cipher/base/secret/salt/host-binding configurations x plaintexts x write/read paths; every truncation length and every single-byte corruption of the stored bytes; name-space lock-step with the tree model; preemption-bounded exhaustive schedule exploration of 2-3 filespaces with different secrets used concurrently",
-         "Round trip through all write-path/read-path pairs (incl. overwrite of shorter/longer content), substring secrecy of the raw bytes, nonce freshness, rejection under every other (secret,salt) of the pool, and for the stored bytes of each plaintext EVERY truncation length 0..N-1 and EVERY single-byte corruption (all 255 values for short files) must be answered with an error - never data, never a panic - on a fresh base each time; name-space operations are compared step by step with the tree model through the encrypted filespace; every round-trip case also crosses a child view in both directions (parent writes / child reads; child writes / parent and an independent same-settings filespace read).",
+         "Round trip through all write-path/read-path pairs (incl. overwrite of shorter/longer content), substring secrecy of the raw bytes, nonce freshness, rejection under every other (secret,salt) of the pool and among 7 settings with long key material (common 64- / 100-byte prefixes), and for the stored bytes of each plaintext EVERY truncation length 0..N-1 and EVERY single-byte corruption (all 255 values for short files) must be answered with an error - never data, never a panic - on a fresh base each time; name-space operations are compared step by step with the tree model through the encrypted filespace; every round-trip case also crosses a child view in both directions (parent writes / child reads; child writes / parent and an independent same-settings filespace read).",
          "crypto/rand.Reader replaced by a deterministic non-repeating stream; concurrent part: 14 programs, <=2/3 preemptions, race oracle on the encryptfs packages; caller buffers are re-used and wiped; cryptographic strength out of scope; plaintext lengths include 70000 (thorough 140001) with every truncation length on the whole-file paths; corruptions (and truncations on the other paths) of long files use strided interior positions (stated in evidence).",
          "DESIGN.md 3/C05"),
  "C06": ("model_checking",
@@ -45,37 +45,37 @@ CHECKS = {
          "DESIGN.md 3/C07"),
  "C09": ("model_checking",
          "program enumeration x preemption-bounded exhaustive schedule exploration of the real memfs; each complete interleaving's call/return history and final tree checked for linearizability against the tree reference model (porcupine), plus race oracle",
-         "All unordered pairs of 12 single operations (incl. writer/reader streams held open across a scheduling point) from two initial trees, 8 three-thread, 4 two-operation 8 held-handle programs (a reader or writer held across another write, against writes, reads and copies of the held file) and 2 programs with a refused write followed by / racing with successful writes in the same directory are executed under every schedule within the preemption bound (pairs 3/8, triples 2/4). The history must have a sequential explanation that respects real time and yields the final tree; listings unique; no panic, no deadlock; no unordered conflicting access to memfs multi-word fields. Parent-directory creation may become visible earlier than the node itself, and a copy racing with a recursive remove of both ends is judged by the statement's clauses only (complete values, unique names).",
+         "All unordered pairs of 12 single operations (incl. writer/reader streams held open across a scheduling point) from two initial trees, 8 three-thread, 4 two-operation 8 held-handle programs (a reader or writer held across another write, against writes, reads and copies of the held file) 2 programs with a refused write followed by / racing with successful writes in the same directory and 16 programs of concurrent first uses of a freshly deep-copied directory are executed under every schedule within the preemption bound (pairs 3/8, triples 2/4). The history must have a sequential explanation that respects real time and yields the final tree; listings unique; no panic, no deadlock; no unordered conflicting access to memfs multi-word fields. Parent-directory creation may become visible earlier than the node itself, and a copy racing with a recursive remove of both ends is judged by the statement's clauses only (complete values, unique names).",
          "Linearizability is used as the reading of 'takes effect and is visible afterwards'; 2-3 threads; bounds as reported.",
          "DESIGN.md 3/C09"),
  "C10": ("exploration",
          "exhaustive enumeration of bounded programs (ordered definition calls x request sequences) executed on the real provider and on a reference interpreter, compared request by request",
-         "Every ordered sequence of <=2-4 definition calls over 3 names (explicit and default slot per name; factory shapes const/fail/nil/requires X/tolerates X/injects X/injects ?X for every target incl. self, so every cyclic graph on <=3 names occurs) is followed by every sequence of <=1-3 requests (Get, InjectTo with required and optional tags, Keys, late definitions). Outcome class, instance identity, invocation counters and recursion depth must equal the reference (memoised resolver, explicit beats default, frozen after first resolution, cycle = error). Programs of explicit definitions also run on two static providers sharing one caller-owned factories map (each against a frozen reference; the caller's map unchanged); for every name the library itself registers (goatapp's App, the bundled modules' services) an explicit Set/AddFactory before or after must be accepted and win.",
+         "Every ordered sequence of <=2-4 definition calls over 3 names (explicit and default slot per name; factory shapes const/fail/nil/requires X/tolerates X/injects X/injects ?X for every target incl. self, so every cyclic graph on <=3 names occurs) is followed by every sequence of <=1-3 requests (Get, InjectTo with required and optional tags, Keys, late definitions). Outcome class, instance identity, invocation counters and recursion depth must equal the reference (memoised resolver, explicit beats default, frozen after first resolution, cycle = error). Programs of explicit definitions also run on two static providers sharing one caller-owned factories map (each against a frozen reference; the caller's map unchanged); for every name the library itself registers (goatapp's App, the bundled modules' services) an explicit Set/AddFactory before or after must be accepted and win; every sequence of <=3 InjectTo requests on a provider with a secondary data-scope injector (failed injections change nothing for later requests).",
          "Duplicate definitions of one slot are unspecified by the statement and not generated; error texts are not compared.",
          "DESIGN.md 3/C10"),
  "C11": ("model_checking",
          "program enumeration (scope trees x task bodies x failing listeners x late-failing tasks) x preemption-bounded exhaustive schedule exploration with a happens-before state cache, on the real scope/eventscope/contextscope code",
-         "108 programs over 5 scope trees (task bodies incl. Stop-then-Kill / Stop-then-AppendError / create-and-close a child scope while another task ends the scope) (root; shared child; isolated child; child+grandchild; shared+isolated) with one closer thread per scope and one thread per task; recorders on all 11 events on the root (twice) and on every child. Every schedule within the bound (2-scope trees: 1 quick / 2 thorough preemptions; 3-scope trees: 0 / 1) is executed; the oracle checks on the global-step event log: event order and exactly-once, commit xor rollback where the error source is ordered, waiting for tasks and children, Close result, loud second Close without events, listener order, shared vs isolated failure, parent stop reaching the isolated child, no panic, no deadlock.",
+         "112 programs over 5 scope trees (task bodies incl. Stop-then-Kill / Stop-then-AppendError / create-and-close a child scope while another task ends the scope) (root; shared child; isolated child; child+grandchild; shared+isolated) with one closer thread per scope and one thread per task; recorders on all 11 events on the root (twice) and on every child. Every schedule within the bound (2-scope trees: 1 quick / 2 thorough preemptions; 3-scope trees: 0 / 1) is executed; the oracle checks on the global-step event log: event order and exactly-once, commit xor rollback where the error source is ordered, waiting for tasks and children, Close result, loud second Close without events, listener order, shared vs isolated failure, parent stop reaching the isolated child, no panic, no deadlock; a second Close issued by another goroutine while the first waits is refused loudly.",
          "Commit/rollback and the Close result are only judged where the error source cannot race with the decision; bounds as reported; HB-cache soundness relies on harness observations being recorded as dependent trace events.",
          "DESIGN.md 3/C11"),
  "C12": ("model_checking",
          "program enumeration x stateless preemption-bounded DFS over all schedules of the real contextscope/scope code under the controlled scheduler, with a vector-clock happens-before race oracle on multi-word fields",
-         "All pairs of single operations {AppendError, Kill, Stop, IsDone, Errors}, curated two-operation threads and three-thread programs on plain, isolated, full and child scopes, plus child creation/closing after and racing with the parent's end; every schedule with <=3 (quick) / <=4 (thorough) preemptions for two threads and <=2/3 for three; readers that act on the done signal, errors recorded through the parent wrapper of a shared context with Err() calls in between; oracle: no panic, error count and identity, done signal, done-implies-error-visible (programs without Stop), the texts of Err()/Wait()/Close()/parent.Err() naming every appended error, no deadlock, no unordered conflicting access to the error slices. Child-closing programs: a registered child whose close-time listener fails is closed while another goroutine waits on / closes the parent, whose answers must name the listener's error. Orphan-child programs: a child of an ended scope signals while / after the parent is closed; the context an isolated scope was derived from ends while goroutines signal on the isolated scope; children created while the parent ends next to a registered sibling.",
+         "All pairs of single operations {AppendError, Kill, Stop, IsDone, Errors}, curated two-operation threads and three-thread programs on plain, isolated, full and child scopes, plus child creation/closing after and racing with the parent's end; every schedule with <=3 (quick) / <=4 (thorough) preemptions for two threads and <=2/3 for three; readers that act on the done signal, errors recorded through the parent wrapper of a shared context with Err() calls in between; oracle: no panic, error count and identity, done signal, done-implies-error-visible (programs without Stop), the texts of Err()/Wait()/Close()/parent.Err() naming every appended error, no deadlock, no unordered conflicting access to the error slices. Child-closing programs: a registered child whose close-time listener fails is closed while another goroutine waits on / closes the parent, whose answers must name the listener's error. Orphan-child programs: a child of an ended scope signals while / after the parent is closed; the context an isolated scope was derived from ends while goroutines signal on the isolated scope; children created while the parent ends next to a registered sibling; failing rollback / after-close listeners whose errors Close() must name.",
          "Bounds as reported in evidence; word-sized fields are outside the race oracle; the shim's model of Mutex/RWMutex/WaitGroup/channels/select is trusted.",
          "DESIGN.md 3/C12"),
  "C13": ("model_checking",
          "bounded-history enumeration against a list-of-maps overlay model; preemption-bounded exhaustive schedule exploration of concurrent locked sections judged by a linearizability checker (porcupine) with each locked section as one atomic step; race oracle",
-         "All histories of <=3/4 operations on scope chains of depth 1-3 (keys k1,k2; values 1,2,nil) are compared with the overlay model through plain, locked and nested-locked reads (a section opened on a section's locker); 41 concurrent programs (locked increments, sections on the middle scope of a root-middle-leaf chain with reads through the leaf, plain writes/reads, Keys, nested locked reads, the get-or-create services of the task manager, environment and wait-group units) are explored under every schedule with <=3/2 (quick) or <=5/3 (thorough) preemptions; the recorded call/return history must be linearizable and end in the final value, services must return one instance.",
+         "All histories of <=3/4 operations on scope chains of depth 1-3 (and of <=2 operations on chains of application scopes whose parents are live, stopped or killed when the child is created) (keys k1,k2; values 1,2,nil) are compared with the overlay model through plain, locked and nested-locked reads (a section opened on a section's locker); 41 concurrent programs (locked increments, sections on the middle scope of a root-middle-leaf chain with reads through the leaf, plain writes/reads, Keys, nested locked reads, the get-or-create services of the task manager, environment and wait-group units) are explored under every schedule with <=3/2 (quick) or <=5/3 (thorough) preemptions; the recorded call/return history must be linearizable and end in the final value, services must return one instance.",
          "2-3 threads; bounds as reported; the content of Keys() is not judged.",
          "DESIGN.md 3/C13"),
  "C14": ("model_checking",
          "task-graph enumeration x preemption-bounded exhaustive schedule exploration with a happens-before state cache of the real runner/task manager/terminal loop inside a mock application bootstrapped per execution",
-         "Task graphs on 2-3 tasks (all wait shapes), failing-command variants, body durations, a submission waiting for an unknown task / for itself / for a later task, wait lists that are prefixes of one caller-owned array, a prerequisite that stops its own scope gracefully while its command keeps running, an async sandbox whose Run returns before its work has finished, nested pip:run from inside a body, write/read resource locks (also combined with wait lists) and tasks in a sandbox that reports its outcome only by return value are submitted through the real Runner into the real self sandbox; probe commands log begin/end with global steps. Every schedule within the bound is executed (dependent pairs: 1 preemption quick / 2 thorough; other two-task graphs and chains 0/1; three-task graphs with concurrent tasks: thorough only, free switches) and the oracle checks wait order, never-after-failed-prerequisite, sequential bodies stopping at a failing command, refused submissions, TasksManager.Wait's result, lock exclusion, no panic, no deadlock; after all tasks have finished every named resource must be free again (release check through the application's SharedMutex).",
+         "Task graphs on 2-3 tasks (all wait shapes), failing-command variants, body durations, a submission waiting for an unknown task / for itself / for a later task, wait lists that are prefixes of one caller-owned array, a prerequisite that stops its own scope gracefully while its command keeps running, an async sandbox whose Run returns before its work has finished, a submission with an unknown sandbox (refused; whoever waits for it is refused too), nested pip:run from inside a body, write/read resource locks (also combined with wait lists) and tasks in a sandbox that reports its outcome only by return value are submitted through the real Runner into the real self sandbox; probe commands log begin/end with global steps. Every schedule within the bound is executed (dependent pairs: 1 preemption quick / 2 thorough; other two-task graphs and chains 0/1; three-task graphs with concurrent tasks: thorough only, free switches) and the oracle checks wait order, never-after-failed-prerequisite, sequential bodies stopping at a failing command, refused submissions, TasksManager.Wait's result, lock exclusion, no panic, no deadlock; after all tasks have finished every named resource must be free again (release check through the application's SharedMutex).",
          "Ready select cases are all explored at no cost; accesses to objects outside the focus packages do not order executions in the happens-before cache (declared reduction); siblings sharing a failed context may be cut short.",
          "DESIGN.md 3/C14"),
  "C15": ("model_checking",
          "configuration enumeration (all lock maps over 2 resources for 2-3 holders) x preemption-bounded exhaustive schedule exploration of the real shared mutex, lock-map iteration order as an explored choice",
-         "Every unordered pair and (tiered) triple of lock maps over resources {a,b} is run as holders Lock/enter/exit/Unlock under every schedule within the preemption bound; exclusion is checked at every entry, every compatible pair must overlap in at least one explored execution (so the lock does not serialise readers or disjoint holders), and no schedule may deadlock (the shim models RWMutex writer preference). The task runner (the lock's main client) is driven through the whole-application harness with 5 programs combining wait lists, a failing holder and write/read locks, each ending with a release check (every named resource can be taken for writing once all tasks have finished); 17 hold-until programs over 4 resources; 3-5 command-level pip:run programs.",
+         "Every unordered pair and (tiered) triple of lock maps over resources {a,b} is run as holders Lock/enter/exit/Unlock under every schedule within the preemption bound; exclusion is checked at every entry, every compatible pair must overlap in at least one explored execution (so the lock does not serialise readers or disjoint holders), and no schedule may deadlock (the shim models RWMutex writer preference). The task runner (the lock's main client) is driven through the whole-application harness with 5 programs combining wait lists, a failing holder and write/read locks, each ending with a release check (every named resource can be taken for writing once all tasks have finished); 17 hold-until programs over 4 resources; ring programs with 3 and 140 pairwise disjoint holders that must all be inside at once (names aliased onto one underlying mutex deadlock; the large ring runs its default schedule only); 3-5 command-level pip:run programs.",
          "2 resources, 2-3 holders, bounds as reported.",
          "DESIGN.md 3/C15"),
  "C16": ("model_checking",
@@ -85,12 +85,12 @@ CHECKS = {
          "DESIGN.md 3/C16"),
  "C17": ("exploration",
          "exhaustive enumeration of ALL byte strings up to length 7 (quick) / 9 (thorough) over the 9-symbol alphabet of significant bytes and up to length 4/5 over a 12-symbol alphabet of blank-like bytes, and of all rendered argument lists (<=3 arguments, 14-entry pool, 3 quoting forms, 4 separators)",
-         "Totality, agreement of SplitArguments with ReadArguments and conservation of bytes >= 0x80 are checked on every string; strings without quote/backslash/heredoc against a plain-word reference (per-line fields byte-for-byte, eof flags, exact stop at the newline); strings whose backslashes precede a letter or a continuation newline against the argument-count reference; every rendered list must split back to the original list and leave the next command for the next call; InjectArgs mapping is checked on every list and on lists of 0..40/150 positional arguments. 8 command-loop programs (termexec.RunLoop with and without prompt; a command that consumes the line after its own) are explored under every schedule: the next reader finds exactly the bytes after the command's newline.",
+         "Totality, agreement of SplitArguments with ReadArguments and conservation of bytes >= 0x80 are checked on every string; every string without quotes and '<' against the command-boundary reference (a newline ends the command unless an odd run of backslashes precedes it); strings without quote/backslash/heredoc against a plain-word reference (per-line fields byte-for-byte, eof flags, exact stop at the newline); strings whose backslashes precede a letter or a continuation newline against the argument-count reference; every rendered list must split back to the original list and leave the next command for the next call; InjectArgs mapping is checked on every list and on lists of 0..40/150 positional arguments. 8 command-loop programs (termexec.RunLoop with and without prompt; a command that consumes the line after its own) are explored under every schedule: the next reader finds exactly the bytes after the command's newline.",
          "Length bound as stated (no random part claimed); content of words containing a bare backslash is unspecified by the statement and only counted.",
          "DESIGN.md 3/C17"),
  "C18": ("exploration",
          "exhaustive enumeration of environment values over 12 shell-significant symbols (<=3/4 symbols), 20 word-level symbols (<=2/3) and every byte value in six positions, and of names (<=4 symbols, every byte value); generated scripts executed by the real /bin/sh with a canary command on PATH",
-         "For both start-up script builders (container builder; SSH builder through the verif export hook) every value is configured alone and next to a second variable, the generated script plus NUL-terminated printf lines is fed to /bin/sh on stdin in an empty directory; the shell must print every variable verbatim (up to trailing newlines), exit 0 and leave the directory empty although `a` is a real command that drops a canary file. Every name over 10 symbols accepted by Set/SetAll must be a plain identifier. Heredoc terminators seen in earlier scripts are fed back as value lines under both environment answers for pooled state (modelled sync.Pool keeps everything / nothing); stores filled from shared maps; pairs of scripts built before the first is read; the shell already holds a variable named like the first configured one and set-ness is observed.",
+         "For both start-up script builders (container builder; SSH builder through the verif export hook) every value is configured alone and next to a second variable, the generated script plus NUL-terminated printf lines is fed to /bin/sh on stdin in an empty directory; the shell must print every variable verbatim (up to trailing newlines), exit 0 and leave the directory empty although `a` is a real command that drops a canary file. Every name over 10 symbols accepted by Set/SetAll must be a plain identifier. Heredoc terminators seen in earlier scripts are fed back as value lines under both environment answers for pooled state (modelled sync.Pool keeps everything / nothing); stores filled from shared maps; pairs of scripts built before the first is read; the shell already holds a variable named like the first configured one and set-ness is observed; placeholder-like tokens harvested from the string literals of the anchored packages are used as values.",
          "dash as /bin/sh of this image; no SSH/container engine involved; symbol bound as stated.",
          "DESIGN.md 3/C18"),
  "C19": ("model_checking",
@@ -100,12 +100,12 @@ CHECKS = {
          "DESIGN.md 3/C19"),
  "C20": ("exploration",
          "exhaustive bounded enumeration of nested maps, JSON documents (every leaf string up to 2/3 symbols in every spelling) and flat maps against encoding/json; bounded-preemption schedule exploration of the concurrent loader",
-         "Flatten/rebuild inverse laws on all nested maps (3 keys, and the empty string + 1 key, depth<=3, <=3/4 leaves; deep spines to depth 12/20); JSON reading compared with encoding/json on 4 document shapes x every leaf string over 9 JSON-significant symbols incl. escaped spellings and surrogate pairs, every number literal of <=5/6 characters over {0,1,-,+,.,e,E}, and skipped leaf kinds; JSON writing (compact and formatted) must be valid for encoding/json, denote the same map and round-trip, for every value string over 20 symbols (incl. U+1F600, U+10000, U+FFFF and JSON's structural characters) and every prefix-free key set of <=3/4 keys over segments that are prefixes of one another; the translation loader is explored under every schedule with <=1-3 preemptions on 8 directory layouts.",
+         "Flatten/rebuild inverse laws on all nested maps (3 keys, and the empty string + 1 key, depth<=3, <=3/4 leaves; deep spines to depth 12/20); JSON reading compared with encoding/json on 4 document shapes x every leaf string over 9 JSON-significant symbols incl. escaped spellings and surrogate pairs, every number literal of <=5/6 characters over {0,1,-,+,.,e,E}, and skipped leaf kinds; JSON writing (compact and formatted) must be valid for encoding/json, denote the same map and round-trip, for every value string over 20 symbols (incl. U+1F600, U+10000, U+FFFF and JSON's structural characters) and every prefix-free key set of <=3/4 keys over segments that are prefixes of one another; the translation loader is explored under every schedule with <=1-3 preemptions on 15 directory layouts (one with more files in a directory than the walker's queues hold, capacity scaled down).",
          "encoding/json is the reference; symbol-length bounds as stated; loader values are %-free; the flat key '' alone is refused by the rebuild functions by design (explicit error, accepted).",
          "DESIGN.md 3/C20"),
  "C08": ("model_checking",
          "stateless preemption-bounded DFS over all schedules of the real fsloop/jobsync code under a controlled scheduler (vsched), fair-yield rule, per-program bounds",
-         "Every schedule (up to the stated preemption bound, 2-3 for small programs) of the real producer/consumer/completion goroutines is executed for a family of trees, filters, worker limits, channel capacities and injected failures; oracle = multiset of callback arguments, concurrency high-water mark, callbacks after Wait, error list; loops bound to an event scope that is killed during the walk must report the interruption. Found the lost-item window on the pinned tree (fixed).",
+         "Every schedule (up to the stated preemption bound, 2-3 for small programs) of the real producer/consumer/completion goroutines is executed for a family of trees, filters, worker limits, channel capacities and injected failures; oracle = multiset of callback arguments, concurrency high-water mark, callbacks after Wait, error list; loops bound to an event scope that is killed during the walk must report the interruption; trees with dot-prefixed names; listings longer than the queue capacity with a free producer slot. Found the lost-item window on the pinned tree (fixed).",
          "Trusts the vsched model of Mutex/RWMutex/WaitGroup/buffered channels/select/Gosched; bounded to <=2 producers/consumers and <=3 preemptions; memfs treated as non-preemptive.",
          "DESIGN.md 3/C08"),
 }
